@@ -499,8 +499,7 @@ Proof.
   assert (P20 : 2 ^ 20 = 1048576) by reflexivity. assert (P63 : 2 ^ 63 - 1 = 9223372036854775807) by reflexivity.
   rewrite P20, P63.
   destruct (Z.ltb_spec (Z.min 9223372036854775807 (dval ds)) 0); [lia|]. cbn [orb].
-  destruct (Z.ltb_spec 1048576 (Z.min 9223372036854775807 (dval ds))); destruct (Z.ltb_spec 1048576 (dval ds)); try lia.
-  reflexivity.
+  destruct (Z.ltb_spec 1048576 (Z.min 9223372036854775807 (dval ds))); destruct (Z.ltb_spec 1048576 (dval ds)); lia.
 Qed.
 
 Lemma render_item_chars it x : item_okb it = true -> In x (render_item it) -> is_digit x = true \/ x = CH_MINUS.
